@@ -55,7 +55,10 @@ fn observe(bytes: &[u8], hdr: &Fields, plain: &[Option<Vec<u8>>]) -> Result<File
                 None => if !r.compressed() && r.decompress().is_ok() { wrongway_ok = false; detail = format!("record {k}: decompress() of an uncompressed record succeeded"); },
             }
         }
-        let header_ok = match file.header() {
+        // the header through the file (a slice) for one half of the inputs, through the public Header::deserialize on a reader that
+        // delivers 1..7 bytes per call for the other half
+        let header = if dribbled(&bytes[..bytes.len().min(24)]) { nexrad_data::volume::Header::deserialize(&mut Dribble::new(&bytes)) } else { file.header() };
+        let header_ok = match header {
             Ok(h) => h.tape_filename().map(|s| s.into_bytes()) == hdr.get("tape_filename").cloned() && h.extension_number().map(|s| s.into_bytes()) == hdr.get("extension_number").cloned()
                 && h.icao_of_radar().map(|s| s.into_bytes()) == hdr.get("icao_of_radar").cloned()
                 && h.date_time().map(|t| t.timestamp_millis()) == Some((u32::from_be_bytes(hdr["date"].clone().try_into().unwrap_or([0; 4])) as u16 as i64 - 1) * 86_400_000 + u32::from_be_bytes(hdr["time"].clone().try_into().unwrap_or([0; 4])) as i64),
